@@ -57,5 +57,7 @@ Definition entries : list (Z * (data -> data)) :=
     (403, fun d => let '(jobs, h, rows) := d_table d in
                    L [ebool (ok_C04 jobs h rows); I (clause_C04 jobs h rows);
                       elist (epair enat enat) (bad_cells jobs h rows)]);
+    (* 405: list of event lists (searches one after the other on ONE evaluator) -> tables of the REPAIRED model *)
+    (405, fun d => elist e_outcome (searches_from infer_fixed None (dmap (dmap d_event) d)));
     (* 404: job -> (objective-kind standardized public metadata) for the report *)
     (404, fun d => let j := d_job d in elist (epair eZ e_cell) (pub_md j)) ].
